@@ -47,12 +47,22 @@ template<int D> void bad_step(view_t<D>& v, std::string const& kind, std::vector
 		else if(kind == "call_first") { touched = call_with<D>(v, a[0], true); sink = *touched; }
 		else if(kind == "call_last") { touched = call_with<D>(v, a[0], false); sink = *touched; }
 		else if(kind == "sliced") { auto&& s = v.sliced(a[0], a[1]); touched = const_cast<long*>(s.base()); }
-		else if(kind == "assign_longer" || kind == "assign_shorter") {
+		else if(kind.rfind("assign_", 0) == 0) {
+			// assign_<longer|shorter|swapped>_<array|view|rview|crview|oview>_<lv|rv>
 			std::vector<long> sh; szv<D>(v.sizes(), sh, std::make_index_sequence<D>{});
-			sh[0] += (kind == "assign_longer") ? 1 : -1;
-			if(sh[0] < 0) { sh[0] = 0; }
+			auto has = [&](char const* w) { return kind.find(w) != std::string::npos; };
+			if(has("longer")) { sh[0] += 1; }
+			else if(has("shorter")) { sh[0] -= 1; if(sh[0] < 0) { sh[0] = 0; } }
+			else if(has("swapped")) { if constexpr(D >= 2) { std::swap(sh[D - 1], sh[D - 2]); } }
 			multi::array<long, D> other(zext<D>(sh, std::make_index_sequence<D>{}), 77L);
-			v = other;
+			multi::array<int, D> iother(zext<D>(sh, std::make_index_sequence<D>{}), 77);
+			bool const rdest = has("_rv");
+			auto assign = [&](auto&& src) { if(rdest) { std::move(v) = std::forward<decltype(src)>(src); } else { v = std::forward<decltype(src)>(src); } };
+			if(has("_crview_")) { assign(std::as_const(other)()); }            // a temporary read-only view
+			else if(has("_oview_")) { assign(iother()); }                       // a temporary view of another element type
+			else if(has("_rview_")) { assign(other()); }                        // a temporary view
+			else if(has("_view_")) { auto&& ov = other(); assign(ov); }         // a named view
+			else { assign(other); }                                             // an array
 		}
 	});
 	(void)sink;
